@@ -40,7 +40,7 @@ func VerifC10Override() {
 		v1, v2 = "0.4", "0."+nd.From("op", 1, "0159")
 	}
 	var with, without string
-	switch nd.Choose("case", 0, 11) {
+	switch nd.Choose("case", 0, 16) {
 	case 0: // last assignment of an attribute wins, across spellings of the name
 		with = a + "." + attr + ": " + v1 + "\n" + a2 + "." + attr + ": " + v2 + "\n"
 		without = a + "." + attr + ": " + v2 + "\n"
@@ -77,6 +77,21 @@ func VerifC10Override() {
 	case 11: // declaration order of merged objects is that of first appearance
 		with = a + "\n" + b + "\n" + a2 + ": " + v1 + "\n"
 		without = a + ": " + v1 + "\n" + b + "\n"
+	case 12: // null on a connection inside a container, container spelled in either case
+		with = a + ".k -> " + a + ".j: " + v1 + "\n(" + a2 + ".k -> " + a + ".j)[0]: null\n"
+		without = a + ".k\n" + a + ".j\n"
+	case 13: // null on an endpoint removes a connection written from the outer scope
+		with = a + ".k -> " + a + ".j: " + v1 + "\n" + a2 + ".j: null\n"
+		without = a + ".k\n"
+	case 14: // ... and a later declaration creates the endpoint afresh, without the old connection
+		with = a + ".k -> " + a + ".j: " + v1 + "\n" + a2 + ".j: null\n" + a + ".j: " + v2 + "\n"
+		without = a + ".k\n" + a + ".j: " + v2 + "\n"
+	case 15: // null on an ancestor of an endpoint
+		with = a + ".k -> " + a + ".j.i: " + v1 + "\n" + b + " -> " + a + ".j.i\n" + a2 + ".j: null\n"
+		without = a + ".k\n" + b + "\n"
+	case 16: // declared, nulled, declared again: one fresh connection
+		with = a + ".k -> " + a + ".j: " + v1 + "\n(" + a + ".k -> " + a2 + ".j)[0]: null\n" + a + ".k -> " + a + ".j: " + v2 + "\n"
+		without = a + ".k\n" + a + ".j\n" + a + ".k -> " + a + ".j: " + v2 + "\n"
 	}
 	vSame(with, without, nil, "override/null semantics")
 }
